@@ -34,6 +34,10 @@ struct World {
   std::map<int, FakeTRS*> srcOf;                 // model source name -> source object (sources created by ConnectNew)
   std::map<const FakeTRS*, std::pair<int, int>> nameOf;   // source object -> (model source name, next base-set index)
   bool labelled{ false };                        // every base set carries its origin token as term text
+  std::map<PictID, FakeTRS*> known;              // the source a pictogram's handle names (also while that source is closed)
+  void Refresh() { for (const auto& pict : *oss) { const auto* h = oss->Src()(pict.uid); if (h == nullptr || h->empty()) known.erase(pict.uid); else if (h->src != nullptr) known[pict.uid] = &Mgr().DummyCast(*h->src); }
+    for (auto it = known.begin(); it != known.end();) if (!oss->Contains(it->first)) it = known.erase(it); else ++it; }
+  FakeTRS* Data(PictID p) { if (auto* s = Src(p); s != nullptr) return s; const auto* h = oss->Src()(p); if (h == nullptr || h->empty()) return nullptr; const auto it = known.find(p); return it == known.end() ? nullptr : it->second; }
   FakeSourceManager& Mgr() { return dynamic_cast<FakeSourceManager&>(Environment::Sources()); }
   FakeTRS* Src(PictID p) { const auto* h = oss->Src()(p); return (h != nullptr && h->src != nullptr) ? &Mgr().DummyCast(*h->src) : nullptr; }
   World() { Environment::Instance().SetSourceManager(std::make_unique<FakeSourceManager>()); oss = std::make_unique<OSSchema>(); }
@@ -93,13 +97,13 @@ static json ViewOf(World& w) {
     const auto* h = w.oss->Src()(p); const auto* op = w.oss->Ops()(p);
     const auto pos = w.oss->Grid()(p);
     json it = { {"pid", p}, {"row", pos.has_value() ? pos->row : -1}, {"col", pos.has_value() ? pos->column : -1}, {"parents", w.oss->Graph().ParentsOf(p)}, {"isOp", op != nullptr}, {"hasData", h != nullptr && !h->empty()},
-                {"status", StatusName(w.oss->Ops().StatusOf(p))}, {"broken", op != nullptr && op->broken}, {"outdated", op != nullptr && op->outdated},
+                {"linked", h != nullptr && h->src != nullptr}, {"status", StatusName(w.oss->Ops().StatusOf(p))}, {"broken", op != nullptr && op->broken}, {"outdated", op != nullptr && op->outdated},
                 {"type", op == nullptr ? "" : op->type == ops::Type::rsMerge ? "merge" : op->type == ops::Type::rsSynt ? "synt" : "tba"}, {"n", 0}, {"terms", 0} };
     it["labels"] = json::array(); it["key"] = json::array();
-    if (auto* s = w.Src(p); s != nullptr) { it["n"] = BasesOf(s->schema).size(); it["terms"] = TermsOf(s->schema);
+    if (auto* s = w.Data(p); s != nullptr) { it["n"] = BasesOf(s->schema).size(); it["terms"] = TermsOf(s->schema);
       if (w.labelled) for (const auto u : BasesOf(s->schema)) it["labels"].push_back(LabelOf(s->schema, u)); }
     if (w.labelled && op != nullptr) if (const auto* eq = dynamic_cast<const ops::EquationOptions*>(op->options.get()); eq != nullptr && eq->size() == 1) {
-      const auto parents = w.oss->Graph().ParentsOf(p); auto* s1 = w.Src(parents[0]); auto* s2 = w.Src(parents[1]);
+      const auto parents = w.oss->Graph().ParentsOf(p); auto* s1 = w.Data(parents[0]); auto* s2 = w.Data(parents[1]);
       const auto kv = *eq->begin();
       if (s1 != nullptr && s2 != nullptr && s1->schema.Contains(kv.first) && s2->schema.Contains(kv.second)) it["key"] = json::array({ LabelOf(s1->schema, kv.first), LabelOf(s2->schema, kv.second) });
       else it["key"] = json::array({ "dangling" });
@@ -119,7 +123,7 @@ static std::multiset<std::string> Shape(const RSForm& f, bool trackedOnly) {
 // "" when p's stored result is the synthesis of its parents' current schemas; "skip" when there is nothing to compare
 static std::string ResultVsParents(World& w, PictID p, json& info) {
   const auto parents = w.oss->Graph().ParentsOf(p);
-  auto* s1 = w.Src(parents[0]); auto* s2 = w.Src(parents[1]); auto* sp = w.Src(p);
+  auto* s1 = w.Data(parents[0]); auto* s2 = w.Data(parents[1]); auto* sp = w.Data(p);
   if (s1 == nullptr || s2 == nullptr || sp == nullptr) return "skip";
   const auto* opts = dynamic_cast<const ops::EquationOptions*>(w.oss->Ops()(p)->options.get());
   ops::BinarySynthes oracle{ s1->schema, s2->schema, opts == nullptr ? ops::EquationOptions{} : *opts };
@@ -147,7 +151,7 @@ static void CheckExecution(World& w, PictID p, const std::vector<std::string>& o
   if (own != ownBefore.size()) { info["before"] = ownBefore; r.Violation("C19", "the user's additions to the previous result were not carried over", wit, info); }
 }
 static std::vector<std::string> OwnAdditions(World& w, PictID p) {     // untracked constituents of the stored result = what the user added
-  std::vector<std::string> v; if (auto* s = w.Src(p); s != nullptr) for (const auto u : s->schema.List()) if (!s->schema.Mods().IsTracking(u)) v.push_back(s->schema.GetRS(u).definition);
+  std::vector<std::string> v; if (auto* s = w.Data(p); s != nullptr) for (const auto u : s->schema.List()) if (!s->schema.Mods().IsTracking(u)) v.push_back(s->schema.GetRS(u).definition);
   return v;
 }
 static void ExecuteChecked(World& w, PictID p, bool all, const json& wit, size_t step, vh::Report& r) {
@@ -174,7 +178,7 @@ static void Apply(World& w, const json& c, const json& wit, size_t step, vh::Rep
     for (int i = 0; i < c["n"].get<int>(); ++i) (void)AddLabelledBase(w, src); src.TriggerSave();
     (void)ossRef.Src().ConnectPict2Src(p, src); }
   else if (o == "Edit") {
-    auto* s = w.Src(p); if (s == nullptr) { r.Drift("C19", "edit of a pictogram without attached source", wit, { {"step", step} }); return; }
+    auto* s = w.Data(p); if (s == nullptr) { r.Drift("C19", "edit of a pictogram without source", wit, { {"step", step} }); return; }
     const std::string k = c["kind"]; auto bases = BasesOf(s->schema);
     if (k == "addBase") (void)AddLabelledBase(w, *s);
     else if (k == "removeFirst") { if (!s->schema.Erase(bases.front())) r.Drift("C19", "removeFirst refused", wit, { {"step", step} }); }
@@ -199,14 +203,18 @@ static void Apply(World& w, const json& c, const json& wit, size_t step, vh::Rep
   }
   else if (o == "ShiftPict") (void)ossRef.Grid().ShiftPict(p, c["n"].get<int32_t>());
   else if (o == "LoadPosition") { if (ossRef.Contains(p)) ossRef.Grid().LoadPosition(p, oss::GridPosition{ c["a"].get<int32_t>(), c["b"].get<int32_t>() }); }
-  else if (o == "Lock") { if (auto* s = w.Src(p); s != nullptr) s->unwritable = true; }
+  else if (o == "Lock") { if (auto* s = w.Data(p); s != nullptr) s->unwritable = true; }
+  // (a source manager announces changes of open documents only: for a closed source nothing is sent - the schema would look it up
+  // among the open sources, and the model just notes the change as saved)
   else if (o == "Save") { if (auto* s = w.Src(p); s != nullptr) s->TriggerSave(); }
+  else if (o == "Close") { if (auto* s = w.Src(p); s != nullptr) w.Mgr().Close(*s); }
+  else if (o == "Open") { if (w.Src(p) == nullptr) if (auto* s = w.Data(p); s != nullptr) s->TriggerOpen(); }
   else if (o == "InitFor") {
     if (!ossRef.Contains(p) || ossRef.Ops()(p) == nullptr) return;
     const std::string t = c["type"]; const int table = c["table"].get<int>();
     std::unique_ptr<ops::EquationOptions> opts;
     if (table >= 0) { opts = std::make_unique<ops::EquationOptions>();
-      if (table >= 1) { const auto parents = ossRef.Graph().ParentsOf(p); auto* s1 = w.Src(parents[0]); auto* s2 = w.Src(parents[1]);
+      if (table >= 1) { const auto parents = ossRef.Graph().ParentsOf(p); auto* s1 = w.Data(parents[0]); auto* s2 = w.Data(parents[1]);
         if (s1 != nullptr && s2 != nullptr && !BasesOf(s1->schema).empty() && !BasesOf(s2->schema).empty())
           opts->Insert(table == 2 ? BasesOf(s1->schema).back() : BasesOf(s1->schema).front(), BasesOf(s2->schema).front());
         else opts->Insert(424242, 434343); } }
@@ -215,13 +223,14 @@ static void Apply(World& w, const json& c, const json& wit, size_t step, vh::Rep
   else if (o == "Execute") ExecuteChecked(w, p, false, wit, step, r);
   else if (o == "ExecuteAll") ExecuteChecked(w, 0, true, wit, step, r);
   g_uids.clear();
+  w.Refresh();
 }
 static std::string CompareView(const json& got, const json& exp, bool& freshness) {
   freshness = false;
   if (got.size() != exp.size()) return "number of pictograms";
   for (size_t i = 0; i < got.size(); ++i) {
     const auto& g = got[i]; const auto& e = exp[i];
-    for (const char* k : { "pid", "parents", "isOp", "hasData", "type", "n", "terms", "broken", "outdated", "status", "row", "col", "labels", "key" }) if (g[k] != e[k]) {
+    for (const char* k : { "pid", "parents", "isOp", "hasData", "type", "n", "terms", "broken", "outdated", "status", "row", "col", "labels", "key", "linked" }) if (g[k] != e[k]) {
       if (std::string(k) == "status" || std::string(k) == "outdated") freshness = g["status"] == "done" && e["status"] != "done";
       return std::string(k) + " of pictogram " + std::to_string(g["pid"].get<int>()) + ": " + g[k].dump() + " instead of " + e[k].dump();
     }
@@ -248,7 +257,7 @@ static void Handle(const json& c, vh::Report& r) {
     else r.Drift("C19", "state differs from the model: " + d.substr(0, d.find(':')), wit, { {"diff", d}, {"got", ViewOf(w)} });
   }
   std::set<PictID> all; for (const auto& pict : *w.oss) all.insert(pict.uid);
-  for (const auto p : all) if (auto* s = w.Src(p); s != nullptr) s->TriggerSave();
+  for (const auto p : all) { if (w.Src(p) == nullptr) if (auto* s = w.Data(p); s != nullptr) s->TriggerOpen(); if (auto* s = w.Data(p); s != nullptr) s->TriggerSave(); w.Refresh(); }
   ++r.checks;
   // freshness on the implementation alone: an operation that reports done holds the synthesis of its parents' current schemas
   // (with labelled base sets the texts decide which copies DeleteDuplicates merges, so the synthesis can change without any change
